@@ -252,3 +252,7 @@ Definition check_connect_repaired (c : string * string * bool * bool) : bool :=
   let '(st, it, ctor, refused) := c in
   let r := if ctor then connect_ctor gen_tables st it else connect_method gen_tables true st it in
   Bool.eqb (negb (result_eqb r Ok)) refused.
+
+(* a recipe with several validations: every validation is compared on the slice AS IT IS AT THAT MOMENT *)
+Definition check_phases (c : list (slice * (result * list osite))) : bool := forallb check_slice c.
+Definition check_phases_repaired (c : list (slice * (result * list osite))) : bool := forallb check_slice_repaired c.
